@@ -1,9 +1,12 @@
 """Semi-asynchronous value iteration solver with different batch ordering strategies."""
 
+import os
+
 import chex
 import jax
 import jax.numpy as jnp
 import jax.random as random
+import numpy as np
 from hydra.conf import dataclass
 from jaxtyping import Array, Float
 from loguru import logger
@@ -421,6 +424,15 @@ class SemiAsyncValueIteration(ValueIteration):
                 batched_states.shape[0],  # n_devices
                 batched_states.shape[1],  # n_batches
                 batched_states.shape[2],  # batch_size
+            )
+
+        # Verification hook (no effect unless MDPAX_VERIF=1): record the
+        # permutation actually used in this sweep (None for fixed order)
+        if os.environ.get("MDPAX_VERIF") == "1":
+            if not hasattr(self, "_verif_permutations"):
+                self._verif_permutations = []
+            self._verif_permutations.append(
+                None if shuffled_state_idxs is None else np.asarray(shuffled_state_idxs)
             )
 
         # Process batches semi-asynchronously
